@@ -30,6 +30,11 @@ _PyVal.declare("PSentinel", ("psent", IntS))     # module-level sentinel objects
 _PyVal.declare("POther", ("pother", IntS))       # any other object (list, dict, float, ...): opaque
 PyVal = _PyVal.create()
 
+# value of a dictionary that maps a nibble tuple to a pair (opaque object, nibble tuple): TrieFrontierCache._cache
+_Entry = z3.Datatype("CacheEntry")
+_Entry.declare("Entry", ("enode", PyVal), ("eseg", SeqI))
+EntryS = _Entry.create()
+
 
 class EngineError(Exception):
     """The interpreter met something outside its subset (=> the unit is demoted, never a verdict)."""
@@ -188,6 +193,7 @@ class ExcObj:
         self.args = tuple(args)
         self.fields = dict(fields or {})
         self.cause = None
+        self.context = None
 
     def __repr__(self):
         return "<exc %s%r>" % (getattr(self.cls, "__name__", getattr(self.cls, "name", self.cls)), self.args)
